@@ -34,6 +34,16 @@ def check(ctx: Ctx, rep: Report, thorough: bool = False):
     rep.rule("C15.R2", "with any subset of optional blocks refused, read_runtime_data() returns no later than the second call", 12)
     rep.rule("C15.R3", "ES: sensors() and read_runtime_data() name the same table", 1)
     rep.rule("C15.R4", "sensors() answers from the current flags and tables: a result it remembers is dropped by every method that changes what it depends on", 2)
+    rep.rule("C15.R5", "_map_response reports an entry for every row of the table it is given (also when a value cannot be decoded): the keys are the table's ids (shared with C11.R2)", 1)
+    from .c11 import _isolating_loop
+    mr = ctx.prog.find_method(ctx.prog.cls("Inverter"), "_map_response")
+    ok5, why5 = _isolating_loop(ctx.prog, mr, "read", ("ValueError",), ctx.res)
+    rep.check(ok5, "C15.R5", "map-response-total", mr.loc() if mr is not None else "goodwe/inverter.py",
+              "_map_response stores a value or None for every row on every path of its loop",
+              bad="Inverter._map_response: %s: a sensor listed by sensors() is then missing from the keys of read_runtime_data()" % why5)
+    rep.rule("C15.R6", "the capability fallbacks recognise the refusal: every comparison of a rejection's message is against a reason text the validators produce (shared with C08.R3)", 4)
+    from .c08 import message_comparisons
+    message_comparisons(ctx, rep, "C15.R6")
     for famname in ("ET", "DT"):
         memo_coherence(ctx, rep, famname)
     total_states = total_paths = 0
